@@ -99,6 +99,11 @@ class FlorySchulz(Distribution):
         def _pmf(self, k, a):
             return a**2 * k * (1 - a) ** (k - 1)
 
+        def _get_support(self, a):
+            # Finite integer support (tail beyond is < 1e-24).
+            # The generic quantile search of scipy fails for about 1% of the quantiles with an infinite support.
+            return self.a, np.ceil(60 / a) + 10
+
     def __init__(self, raw_text):
         """
         Initialization of Flory-Schulz distribution object.
@@ -160,6 +165,11 @@ class SchulzZimm(Distribution):
 
         def _pmf(self, M, z, Mn):
             return z ** (z + 1) / special.gamma(z + 1) * M ** (z - 1) / Mn**z * np.exp(-z * M / Mn)
+
+        def _get_support(self, z, Mn):
+            # Finite integer support (tail beyond is < 1e-18).
+            # The generic quantile search of scipy fails for about 1% of the quantiles with an infinite support.
+            return self.a, np.ceil(stats.gamma.isf(1e-18, z, scale=Mn / z)) + 10
 
     def __init__(self, raw_text):
         """
